@@ -378,7 +378,7 @@ def rule_feeds(F, R, pid):
 
 def judge_feed(R, pid, inst, it, kind, verdict, wrapped, c):
     where = it.where()
-    rule_t = pid + (".target" if pid == "C13" else ".apply" if pid == "C16" else ".forward")
+    rule_t = pid + (".target" if pid == "C13" else ".forward" if pid == "C20" else ".apply")
     if isinstance(c.result, (Top, Panicked)):
         R.fail(rule_t, inst, "unanalysable / panicking cell: %r" % (c.result,), where)
         return
